@@ -75,11 +75,13 @@ def property_checks(p):
     for i, (r0f, psf) in enumerate(siblings):
         gen = ic.ScriptedGenerator(p["data_seed"] + i)
         try:
-            s = ic.make_screen(p["kind"], p["nx"], p["ps"] * psf, p["r0"] * r0f, p["L0"], p["extra"], gen)
+            s = ic.make_screen(p["kind"], p["nx"], (p["ps"] if psf == 1.0 else p["ps"] * psf), p["r0"] * r0f, p["L0"], p["extra"], gen)
         except Exception:
             continue
         tag = "" if i == 0 else " (after a sibling screen)"
         N = s.requested_nx_size
+        gen.row_len = s.nx_size           # record the innovation vector of every step
+        bad_affine = 0.0
         nsteps = 3 * int(s.stencil_length) + 3 if p.get("long") else p["steps"]
         bad_shape = bad_shift = bad_finite = bad_read = 0
         for t in range(nsteps):
@@ -89,8 +91,17 @@ def property_checks(p):
             a = s.scrn; txt = repr(s); b = s.scrn
             if not (numpy.array_equal(a, before) and numpy.array_equal(b, before) and numpy.array_equal(s._scrn, full_before) and gen_state(s._R) == st):
                 bad_read += 1
+            nserved = len(gen.served)
             ret = s.add_row()
             after = numpy.array(s.scrn, copy=True)
+            if len(gen.served) == nserved + 1 and s._scrn.shape == full_before.shape:
+                # the recursion itself: von Karman X = A Z + B b; Fried: the same on values relative to the reference pixel (1, 1)
+                Z = full_before[(s.stencil_coords[:, 0], s.stencil_coords[:, 1])]
+                bvec = gen.served[-1]
+                ref = full_before[1, 1] if p["kind"] == "fried" else 0.0
+                want = s.A_mat.dot(Z - ref) + s.B_mat.dot(bvec) + ref
+                scale = max(float(numpy.abs(want).max()), 1e-300)
+                bad_affine = max(bad_affine, float(numpy.abs(s._scrn[0] - want).max() / scale))
             if after.shape != (N, N) or numpy.asarray(ret).shape != (N, N):
                 bad_shape += 1; continue
             if not numpy.all(numpy.isfinite(after)):
@@ -103,6 +114,7 @@ def property_checks(p):
         A(("only finite values%s" % tag, float(bad_finite), 0.0))
         A(("previous screen shifted down by exactly one row, nothing else changes%s" % tag, float(bad_shift), 0.0))
         A(("reading / printing alters neither the screen nor the random stream%s" % tag, float(bad_read), 0.0))
+        A(("each new row is A Z + B b of the stencil values and the drawn innovation (%s)%s" % ("relative to the reference pixel" if p["kind"] == "fried" else "no reference", tag), bad_affine, 1e-9))
         if p["kind"] == "vk":
             # stationarity: theoretical covariance of the n_columns stencil rows is a fixed point of the recursion
             nc, nx = s.n_columns, s.nx_size
